@@ -207,6 +207,12 @@ def u_select_entry(c):
                 note=f"raised {exc_name(r) if st == 'raise' else None} string=(a,b) > c ||")
     else:
         c.prove("_guarantee_call/returns-Call", st == "ok" and r.cls.name == "Call")
+    # a second-focus mark on the FUNCTION position (!!f(x)) is a second focus without a first: refused, with the position
+    Element = it.get_global(S, "Element")
+    marked = it.call(Element, [], dict(name="f", capture="f", tags=frozenset({2})))
+    st, r = run(it, it.get_global(S, "_guarantee_call"), [marked], dict(context="root", node=node))
+    c.prove("_guarantee_call/second-focus-on-the-function-refused", st == "raise" and isinstance(r, SyntaxError) and getattr(r, "offset", None) == 7,
+            note=f"{st} {r!r} string=!!f(x) ||")
 
 
 # ---------------------------------------------------------------------------------------------
@@ -503,6 +509,13 @@ def u_interning(c):
     c.prove("call/same-object-for-equal-fields", k1 is k2)
     k3 = it.call(Call, [], dict(element=e1, captures=(e2,), immediate=True))
     c.prove("call/different-field-different-object", k3 is not k1)
+    # a predicate condition (x~g) wraps the resolved function: the same function gives the same selector object
+    MF = it.get_global(S, "MatchFunction")
+    g1, g2 = SymObj("g1", Val.ref(z3.IntVal(c.new_id()))), SymObj("g2", Val.ref(z3.IntVal(c.new_id())))
+    p1 = it.call(Element, [], dict(name="x", capture="x", value=it.call(MF, [g1], {})))
+    p2 = it.call(Element, [], dict(name="x", capture="x", value=it.call(MF, [g1], {})))
+    p3 = it.call(Element, [], dict(name="x", capture="x", value=it.call(MF, [g2], {})))
+    c.prove("element/predicate-conditions-on-the-same-function-are-the-same-object", p1 is p2 and p3 is not p1, only=["C15"])
     # a value to compare a variable with may be any object the environment provides, including one that cannot be hashed (a list):
     # compiling such a selector must not fail with an internal TypeError
     st, e5 = run(it, Element, [], dict(name="x", capture="x", value=[1, 2]))
